@@ -6,6 +6,8 @@ Decides the self-consistency of the hand-over bookkeeping tables and of the copy
  D2 the direction/velocity compatibility tables are exactly the sign pattern of the signature, the input
     table is the output table of the opposite direction;
  D3 update_photon_position snaps exactly the coordinates fixed by the entry classification;
+ D6 the cell in which an entering packet starts (get_x/y/z_index) lies on the side fixed by the entry classification,
+    i.e. it agrees with the coordinates D3 snaps (a packet placed on a face starts in the cell layer touching it);
  D4 what leaves through direction i is tagged with neighbour(i) and enters through the opposite of i, the
     thread-local buffers are indexed by the direction returned by the traversal;
  D5 the estimator fields accumulated by a packet are the fields folded copy -> original and the fields reset,
@@ -54,6 +56,9 @@ def run(chk, prog):
     D = Directions(u)
     if D.problems or len(D.sig) != 27:
         raise AnalysisBroken("the exit classification table is not a bijection (see C02-T1); signatures unavailable")
+    # ---- D6: the entry cell agrees with the re-positioning (same tables as C02-T2) -----------
+    from .c02 import entry_cell_rule
+    chk.floor("D6", entry_cell_rule(chk, u, D, rule="D6"), 81)
     # ---- D1 -----------------------------------------------------------------------------------
     fn = u.func("TravelDirections::output_to_input_direction")
     chk.analysed(function=fn["full"])
